@@ -140,4 +140,24 @@ theorem prefix_snapshot_counterexample :
     cleanFrom prefixSnapshot 0 = false ∧ cleanFrom prefixSnapshot 4 = false ∧
     cleanFrom prefixSnapshot 7 = false := by decide
 
+/-! ## hidden mutable state: "regardless of what was called before" on the same object -/
+
+/-- **(F)** every attribute that `set_state_from` copies is copied at least as deep as any method
+    mutates it in place (table `FactsC17.sharing`, regenerated from /repo on every run). -/
+theorem no_shared_mutable_state : Share.safe FactsC17.sharing = true := by decide
+
+/-- hence no in-place mutation made through a copy reaches a container of the original -/
+theorem copies_are_private :
+    ∀ r ∈ FactsC17.sharing, ∀ (o : Share.Obj), Share.AllEven o → ∀ (p : List Nat),
+      p.length + 1 ≤ r.2 → ∀ q, Share.copyD r.1 o p ≠ o q :=
+  Share.safe_sound FactsC17.sharing no_shared_mutable_state
+
+/-- **Counter-example shape (seeded change C17-3).**  `already_optimized` copied with `.copy()`
+    (depth 1) but mutated by `already_optimized[objective].add(…)` (depth 2): the table check
+    rejects the row, and indeed the set reached by the path `[objective]` in the copy *is* the
+    original's set. -/
+theorem shared_state_counterexample :
+    Share.safe [(1, 2)] = false ∧ ∀ (o : Share.Obj) (k : Nat), Share.copyD 1 o [k] = o [k] :=
+  ⟨by decide, fun o k => Share.copy_shared o 1 [k] (by simp)⟩
+
 end Cotengra.C17
